@@ -5,14 +5,15 @@
 use chumsky::error::{Cheap, EmptyErr, Rich, Simple};
 use chumsky::input::{Input, IoInput, IterInput, Stream};
 use chumsky::span::SimpleSpan;
+use chumsky::text::{Grapheme, Graphemes};
 use chumsky::Parser;
 
 use crate::ast::{Case, Mode, STree, TTree};
 use crate::build::{Builder, Ex};
 use crate::errs::HErr;
 use crate::input::{
-    shift_span, split_ref, split_val, tree_input, Counting, Cur, HInput, HState, IoIn, IterIn, MapSpanIn, MappedIn,
-    MappedStreamIn, Spanned, StreamIn, TreeIn, WithCtxIn, STT, TT, WITHCTX_CONTEXT,
+    grapheme_of, shift_span, split_ref, split_val, tree_input, Counting, Cur, GText, HInput, HState, IoIn, IterIn,
+    MapSpanIn, MappedIn, MappedStreamIn, Spanned, StreamIn, TreeIn, WithCtxIn, STT, TT, WITHCTX_CONTEXT,
 };
 use crate::val::{track, HTok, Val};
 
@@ -320,4 +321,65 @@ pub fn run_tree<S: ESel>(case: &Case, why: bool) -> String {
     }
     let buf = tokens(&case.tree);
     run::<TreeIn<'_>, S::Err<'_, TreeIn<'_>>, _>(case, Cur::new(&buf[..]), || tree_input(&buf[..]), why).text
+}
+
+// ---------- version 4: the grapheme kinds ----------
+
+/// A buffer that is handed out as `&'static` while the guard lives (the tokens of the grapheme kinds are
+/// references, and `HTok` wants `'static` tokens) and reclaimed when the guard is dropped.
+struct Leaked<T: 'static>(*mut T);
+
+impl<T: 'static> Leaked<T> {
+    fn new(t: T) -> Self {
+        Leaked(Box::into_raw(Box::new(t)))
+    }
+    /// SAFETY: nothing that holds the reference (or anything borrowed from it) may outlive the guard.
+    unsafe fn get(&self) -> &'static T {
+        &*self.0
+    }
+}
+
+impl<T: 'static> Drop for Leaked<T> {
+    fn drop(&mut self) {
+        // SAFETY: made by `Box::into_raw`; see `get`
+        unsafe { drop(Box::from_raw(self.0)) }
+    }
+}
+
+/// The text of a case of the grapheme kinds, or `None` (`UNSUPPORTED`) when the reference segmentation
+/// `unicode_segmentation::graphemes(s, true)` does not give back the case's tokens one for one.
+fn gtext(case: &Case, why: bool) -> Option<GText> {
+    let t = GText::new(&case.input);
+    if t.is_none() && why {
+        eprintln!("{}: {}: the reference segmentation of the text is not the given token sequence", case.id, case.ikind.name());
+    }
+    t
+}
+
+/// `graphemes`: `Graphemes::new(&s)`
+pub fn run_graphemes<S: ESel>(case: &Case, why: bool) -> String {
+    let Some(text) = gtext(case, why) else {
+        return "UNSUPPORTED".to_string();
+    };
+    let text = Leaked::new(text);
+    // SAFETY: the parser, the input, the output and the errors all die inside `run` (also when it unwinds);
+    // what comes out is a `String`
+    let t: &'static GText = unsafe { text.get() };
+    type In = &'static Graphemes;
+    run::<In, S::Err<'static, In>, _>(case, Cur::new(t), || Graphemes::new(&t.s), why).text
+}
+
+/// `gslice`: the reference clusters of the same text as `&[&Grapheme]`
+pub fn run_gslice<S: ESel>(case: &Case, why: bool) -> String {
+    let Some(text) = gtext(case, why) else {
+        return "UNSUPPORTED".to_string();
+    };
+    let text = Leaked::new(text);
+    // SAFETY: as in `run_graphemes`; `toks` (declared later) is dropped before `text`
+    let t: &'static GText = unsafe { text.get() };
+    let toks: Leaked<Vec<&'static Grapheme>> = Leaked::new(t.clusters().map(grapheme_of).collect());
+    // SAFETY: as above
+    let ts: &'static [&'static Grapheme] = unsafe { toks.get() };
+    type In = &'static [&'static Grapheme];
+    run::<In, S::Err<'static, In>, _>(case, Cur::new(ts), || ts, why).text
 }
